@@ -21,6 +21,7 @@
 -/
 import Driver.RpcTrace
 import Mtv.Client.Lifecycle
+import Mtv.Client.TransportFrame
 namespace Driver.C16Life
 open Mtv Mtv.Client Mtv.Client.Life Driver Driver.RpcTrace
 
@@ -125,6 +126,17 @@ partial def go (r : R) (es : List String) (k : Nat) : Option String :=
       match parseEvent e with
       | .skip => go r rest (k + 1)
       | .warn => go r rest (k + 1)
+      -- J:<hex>: the payload must be one the model calls no sealed message (under the key id of event A), and the
+      -- client must be reading: `Frame.stepJ`
+      | .junk =>
+        let data := if e == "J:-" then some [] else Mtv.fromHex? (e.drop 2).toString
+        match data with
+        | none => some s!"unparsed@{k}:{e}"
+        | some d =>
+          if r.keySet && !Frame.junk (Mtv.leBytes r.s.keyId 8) d then some s!"frame-could-be-a-sealed-message@{k}:{e}"
+          else match Frame.stepJ r.s (.frame d) with
+            | some s1 => go { r with s := s1 } rest (k + 1)
+            | none => stuck
       | .sendFault => go { r with failed := r.failed + 1 } rest (k + 1)
       | .plain => some s!"stuck@{k}:plaintext-frame-on-resumed-session"
       | .bad w => some s!"unparsed@{k}:{w}"
